@@ -4,6 +4,8 @@
 import json, sys
 pid, wt = sys.argv[1], sys.argv[2]
 extra = sys.argv[3] if len(sys.argv) > 3 else ""
+suf = sys.argv[4] if len(sys.argv) > 4 else "ab"
+sa, sb = suf[0], suf[1]
 prop = None
 for l in open('/verif/properties.jsonl'):
     p = json.loads(l)
@@ -17,13 +19,13 @@ Here is one semantic property of the library that is supposed to hold:
 
 {text}
 
-YOUR TASK: produce TWO independent source changes ("a" and "b", different mechanisms / different code sites) to the library under {wt}/include/Spectra that each BREAK this property while
+YOUR TASK: produce TWO independent source changes ("{sa}" and "{sb}", different mechanisms / different code sites) to the library under {wt}/include/Spectra that each BREAK this property while
  (1) the library and its test-suite still compile,
  (2) the repository's existing test-suite (365 Catch test cases in 28 binaries) still passes completely, unedited, and
  (3) the breakage needs something specific to manifest - a particular multi-step sequence of operations on one object, an unusual but legal input or configuration corner, a fault at a particular point, a particular thread interleaving, or two cooperating code sites that each look fine alone - NOT something that ordinary use (the README examples, the test-suite's style of usage) exposes at once.
 The changes must be realistic: the kind of defect a maintainer could plausibly introduce in a refactoring, optimisation or small feature patch, and that would survive code review at a glance. No gross breakage, no #ifdef tricks, no special-casing of magic input values or sizes (no "if (n == 7)"), no dead code; keep each change small (a few lines). Do not change the tests. {extra}
 
-For each of the two changes deliver, in /tmp/seed_out/{pid}a/ and /tmp/seed_out/{pid}b/ :
+For each of the two changes deliver, in /tmp/seed_out/{pid}{sa}/ and /tmp/seed_out/{pid}{sb}/ :
   patch.diff   - `git diff` of the change relative to the worktree HEAD (must apply with `git apply` at the repo root)
   demo.cpp     - a small standalone demonstration program (only the library headers + Eigen; compile with
                  `g++ -std=c++17 -O2 -I{wt}/include -I/usr/include/eigen3 demo.cpp -o demo -lpthread`) that exits 0 and prints OK on the ORIGINAL tree
